@@ -61,6 +61,42 @@ def mon_c18_builtins(case, verdict, chk):
                       replay)
 
 
+def mon_c18_conc(case, verdict, chk):
+    """C18, determinism under concurrent use of the ONE function table: every call made while other goroutines call built-ins
+    returns what the same call returned alone (a deterministic function of its arguments has no other input)."""
+    if case.get("kind") != "builtin-conc":
+        return
+    fn = case.get("fn", "?")
+    idx = case.get("id", "conc-0-0").split("-")[-1]
+    rh = ["builtins-conc", "-n", str(int(idx) + 1), "-skip", idx, "-seed", str(chk.seed)]
+    if case.get("crash"):
+        chk.violation("C18:crash-under-concurrent-use:" + fn, "concurrent calls of built-in functions crashed the process: %s" % case["crash"][:300],
+                      {"kind": "impl-counterexample", "case": _slim(case), "replay_harness": rh})
+        return
+    tag = "conc:%s:%s" % (fn, "mismatch" if case.get("mismatches") else "ok")
+    chk.hist[tag] = chk.hist.get(tag, 0) + 1
+    chk.hist["conc:calls"] = chk.hist.get("conc:calls", 0) + int(case.get("calls") or 0)
+    if case.get("mismatches"):
+        fm = case.get("first_mismatch") or {}
+        chk.violation("C18:nondeterministic-under-concurrent-use:" + str(fm.get("fn") or fn),
+                      "built-in %s is not a function of its arguments when the function table is used by %d goroutines at once: %d of %d "
+                      "concurrent calls returned something else than the same call made alone, e.g. args %s: alone %s, concurrently %s"
+                      % (fm.get("fn") or fn, len(case.get("goroutines") or []), case.get("mismatches"), case.get("calls"),
+                         str(fm.get("args"))[:200], str(fm.get("alone"))[:160], str(fm.get("concurrent"))[:160]),
+                      {"kind": "impl-counterexample", "case": _slim(case), "replay_harness": rh})
+
+
+def conc_n(tier):
+    return 200 if tier == "thorough" else 60
+
+
+S_CONC = {"name": "builtins-conc",
+          "harness": lambda t, s: ["builtins-conc", "-n", str(conc_n(t)), "-seed", str(s + 3), "-tier", t],
+          "driver": None, "monitor": mon_c18_conc,
+          "nontrivial": lambda c: c.get("kind") == "builtin-conc" and not c.get("skip"),
+          "sample": lambda c: {k: c.get(k) for k in ("id", "fn", "iterations", "calls", "mismatches", "wall_ms")}}
+
+
 _PLAIN = ("small", "ascii", "random", "random-64", "random-bits", "random-exp", "true", "false", "numeric-random", "fmt")
 
 
@@ -105,10 +141,16 @@ SPEC = {
          "monitor": mon_c18_builtins,
          "nontrivial": nontrivial_builtin,
          "sample": sample_builtin},
+        # determinism under concurrent use: 8 goroutines per function, fixed per-goroutine arguments, results compared with the
+        # same call made alone
+        S_CONC,
     ],
     "rule": ("calls of every function of builtinfunctions.GetFunctions() with argument lists drawn from the declared parameter "
              "schemas (distinct = distinct function id + argument list; non-trivial = the call ends in an error or at least one "
              "argument comes from a boundary class: NaN, infinities, signed zero, subnormals, +-2^63 / +-2^53 neighbourhood, extreme "
              "integers, empty / non-ASCII / invalid UTF-8 / pattern-edge strings, nested or empty lists); readFile and getEnvVar "
-             "are called with harmless arguments for the panic / type / determinism checks only"),
+             "are called with harmless arguments for the panic / type / determinism checks only; every boundary value of a numeric "
+             "parameter (incl. the exact powers 2^24, 2^31, 2^32, 2^53, 2^63, 2^64 and their neighbouring floats, both signs) is used at "
+             "least once per function and run; concurrency leg: per function 8 goroutines with fixed per-goroutine arguments, 3 000 / 20 000 "
+             "calls each, every result compared with the same call made alone (plus cases mixing functions)"),
 }
